@@ -126,7 +126,12 @@ def materialise_struct(cs, descs, fmt, quick, seed, valid_bytes):
     n = 0
     # TLC's output order depends on its worker threads: order the descriptions so that the variant rotation is reproducible
     descs = sorted((norm_desc(d) for d in descs), key=lambda d: d["key"])
+    seen_keys = set()
     for d in descs:
+        if d["key"] in seen_keys:          # random walks repeat themselves
+            cs.dups += 1
+            continue
+        seen_keys.add(d["key"])
         t = d.get("trunc")
         key = d["key"]
         if t and t.get("w") == "every-prefix":
